@@ -8,8 +8,10 @@ from vlib import tlc, make_cfg, vh, workdir, write_ndjson, read_ndjson, Verdict,
 PID = "C10"
 
 
-def model(w, maxops, checked, invs, tag, names='{"t1", "t2"}', probe="FALSE"):
-    cfg = make_cfg("MC_Editor.cfg", {"MaxOps": maxops, "ThresholdChecked": checked, "Names": names, "ProbeRefusals": probe}, os.path.join(w, f"{tag}.cfg"), invariants=invs)
+def model(w, maxops, checked, invs, tag, names='{"t1", "t2"}', probe="FALSE", minops=0, simulate=None, seed=None):
+    cfg = make_cfg("MC_Editor.cfg", {"MaxOps": maxops, "ThresholdChecked": checked, "Names": names, "ProbeRefusals": probe, "MinOps": minops}, os.path.join(w, f"{tag}.cfg"), invariants=invs)
+    if simulate:
+        return tlc("Editor", cfg, f"c10-{tag}", workers=1, timeout=1700, simulate=simulate, depth=maxops + 2, seed=seed)
     return tlc("Editor", cfg, f"c10-{tag}", workers=10, timeout=1700)
 
 
@@ -72,6 +74,15 @@ def run(tier, seed):
     progs = [p for p in gen.replays if not p.get("probe")][seed % stride::stride]
     # signing attempts with some but too few of a role's keys: all of them in the thorough tier, one in three otherwise
     progs += probes if tier == "thorough" else probes[seed % 3::3]
+    if tier == "thorough":
+        # long programs (12..25 operations over three targets and both delegated roles) by simulation
+        lg = model(w, 25, "TRUE", ["Emit"], "long", names='{"t1", "t2", "t3"}', minops=12, simulate=400, seed=seed)
+        seen = set()
+        for p in lg.replays:
+            k = json.dumps(p["ops"], sort_keys=True)
+            if k not in seen:
+                seen.add(k)
+                progs.append(p)
     pp = os.path.join(w, "progs.ndjson")
     write_ndjson(pp, progs)
     out = os.path.join(w, "out.ndjson")
